@@ -240,7 +240,7 @@ def find_wipe(F, A, S):
         f = F.fns[p]
         out = f.j.get("output")
         ins = f.j.get("inputs", [])
-        if out and out["k"] == "adt" and out["path"] == "core::result::Result" and len(ins) == 1 and ins[0]["s"] == "&[u8]":
+        if out and out["k"] == "adt" and out["path"] == "core::result::Result" and len(ins) == 1 and core.is_u8_slice_ref(ins[0]):
             inner = out["args"][0]
             if inner["k"] == "adt" and inner["path"] in S:
                 key_adt = inner["path"]
